@@ -13,22 +13,48 @@
 //!  * `poison-used-as-ns-address`  a datagram/TCP connect went to a marker address whose only
 //!                                 source is an out-of-bailiwick record
 //!  * `server-filter`              a contacted address is denied by allow_server/deny_server
-//!  * `answer-filter`              an A/AAAA in an Ok message is denied by allow/deny_answers
-//!  * `answer-filter-in-error`     same in an error payload
+//!  * `answer-filter`              an A/AAAA in ANY section of an Ok message (first resolution, or a
+//!                                 later probe served from the cache) is denied by allow/deny_answers;
+//!                                 signature = section of the returned message
+//!  * `answer-filter-in-error`     same in an error payload; signature = error variant
+//!  * `answer-filter-contacted`    a datagram / TCP connect went to an address the answer filter
+//!                                 excludes (every address but the root hints was learned from a
+//!                                 record of some upstream response, and the filter removes such
+//!                                 records from every section of every response); signature =
+//!                                 transport | family | how the address is published (referral glue /
+//!                                 name-server address lookup / injection only)
 //!  * `termination-budget`         more than B = 16 x (recursion_limit + ns_recursion_limit + 64)
 //!                                 datagrams for one top-level query
 //!  * `termination-alias-depth`    more than recursion_limit + 1 links of a cross-zone alias chain
 //!                                 (one upstream query each) were resolved for one top-level query
 //!  * `termination-virtual-time`   resolve still pending after one hour of virtual time
+//!  * `depth-exact`                limit schedule (depth.rs): on an acyclic alias / glueless chain the
+//!                                 resolution got deeper (`over`) or less deep (`under`) than the
+//!                                 configured limits admit, or resolved / failed against the model;
+//!                                 signature `depth|<graph kind>|limit=<binding limit>|over|under`
+//!  * `depth-growth`               limit schedule: upstream datagrams of a cycle family exceed the
+//!                                 measured constant, fall when the limit grows, or at limit 255
+//!                                 exceed the line through the values at 8 and 24
 //!  * `stub-alias-budget`          Resolver::lookup needs more than 16 upstream queries
-//!  * `panic`
+//!  * `panic`                      (includes `depth += 1` overflowing at limit 255)
+//!
+//! Workloads: generic worlds (gen::generate; every fifth one under a limit pair from
+//! {1,2,3,8,24,255}^2), answer-filter worlds (gen::generate_af: filter class x element x section x
+//! family x response kind, see gen.rs), limit schedule (depth.rs), stub alias chasing (stub.rs).
 //!
 //! Don't-cares (not judged): which error a failing resolution returns; whether a resolution
-//! that *could* succeed does succeed (availability is C18's business); TTLs; the order and
-//! duplication of records; anything an injector says about names inside its own territory
-//! (its zone, descendants, and zones whose name-server names live inside it); the root hints
-//! are not subject to the server filter (never placed in a denied range).
+//! that *could* succeed does succeed (availability is C18's business) - in particular whether an
+//! address rescued by allow_answers / permitted by both filters is actually returned or contacted
+//! (counted: `af_returned_permitted/*`, `af_contacted_permitted/*`, with must-observe minima so that
+//! the silence about denied addresses is known to be the filter's doing); what the filter makes of
+//! a response it emptied (NXDOMAIN error or empty Ok message); TTLs; the order and duplication of
+//! records; anything an injector says about names inside its own territory (its zone,
+//! descendants, and zones whose name-server names live inside it); the root hints are subject to
+//! neither filter (never placed in a denied range); in cycle families only the traffic of the
+//! first (cold) request is compared over the limits, repeats on warm caches are judged on the
+//! generic clauses only.
 
+mod depth;
 mod gen;
 mod net;
 mod oracle;
@@ -53,7 +79,7 @@ use vh::mon::{self, Ctx, Reporter};
 use vh::prng::fnv64;
 
 use net::{Net, SimRuntime};
-use oracle::{denied, in_territory, see, territory};
+use oracle::{addr_class, denied, in_territory, see, territory};
 use world::{marker_of_ip, World};
 
 pub static HEARTBEAT: AtomicU64 = AtomicU64::new(0);
@@ -92,22 +118,22 @@ fn ipnets(v: &[String]) -> Vec<ipnet::IpNet> {
     v.iter().filter_map(|s| s.parse().ok()).collect()
 }
 
-enum Outcome {
+pub(crate) enum Outcome {
     Ok(Message),
     Err(RecursorError),
     VirtualTimeout,
 }
 
-struct TopResult {
-    outcome: Outcome,
-    sent: u64,
-    cap_hit: bool,
-    vt_ms: u64,
+pub(crate) struct TopResult {
+    pub outcome: Outcome,
+    pub sent: u64,
+    pub cap_hit: bool,
+    pub vt_ms: u64,
 }
 
-struct WorldRun {
-    tops: Vec<TopResult>,
-    net: Net,
+pub(crate) struct WorldRun {
+    pub tops: Vec<TopResult>,
+    pub net: Net,
 }
 
 pub fn budget(w: &World) -> u64 {
@@ -239,6 +265,14 @@ fn judge(w: &World, run: &WorldRun, rep: &mut Reporter, widx: u64) {
     for (k, n) in &st.resp_kinds {
         rep.add(&format!("net_response/{k}"), *n);
     }
+    for (k, n) in &st.af_seen {
+        rep.add(&format!("af_delivered/{k}"), *n);
+        // "<class>/<section>/<kind>" -> per class x section
+        let mut it = k.split('/');
+        if let (Some(c), Some(sec)) = (it.next(), it.next()) {
+            rep.add(&format!("af_class_section/{c}/{sec}"), *n);
+        }
+    }
     rep.add("net_datagrams", st.log.iter().filter(|c| !c.tcp).count() as u64);
     rep.add("net_tcp_connects", st.log.iter().filter(|c| c.tcp).count() as u64);
 
@@ -321,6 +355,11 @@ fn judge(w: &World, run: &WorldRun, rep: &mut Reporter, widx: u64) {
                     viol(rep, raised, rule, sig, top, json!({"deny_answers": w.opts.deny_answers, "allow_answers": w.opts.allow_answers}), json!({"record": format!("{} {} {}", s.owner, s.rtype, s.data)}));
                 } else if !w.opts.deny_answers.is_empty() {
                     rep.count("addresses_returned_under_answer_filter");
+                    let c = addr_class(&ip, &w.opts);
+                    if c != "plain" {
+                        // permitted classes do come back: the silence about the denied ones is the filter's work
+                        rep.count(&format!("af_returned_permitted/{c}/{}", if in_error.is_some() { "error" } else { outsec }));
+                    }
                 }
             }
         };
@@ -368,6 +407,39 @@ fn judge(w: &World, run: &WorldRun, rep: &mut Reporter, widx: u64) {
                 );
             } else if !w.roots.contains(&c.ip.to_string()) && (in_net_any(&c.ip, &w.opts.allow_server)) {
                 rep.count("contacts_allowed_by_override");
+            }
+            // ---- the answer filter also decides what may become a name-server address: every
+            // address but the root hints was learned from a record of some upstream response
+            if !w.opts.deny_answers.is_empty() && !w.roots.contains(&c.ip.to_string()) {
+                let class = addr_class(&c.ip, &w.opts);
+                if denied(&c.ip, &w.opts.deny_answers, &w.opts.allow_answers) {
+                    let fam = if c.ip.is_ipv4() { "v4" } else { "v6" };
+                    let ips = c.ip.to_string();
+                    // how the address is published: glue next to the delegation, or only under the
+                    // name-server name in another zone (address lookup), or only by an injection
+                    let mut via = "injected";
+                    for z in &w.zones {
+                        for r in z.recs.iter().filter(|r| (r.rtype == "A" || r.rtype == "AAAA") && r.data.parse::<IpAddr>().map(|a| a.to_string() == ips).unwrap_or(false)) {
+                            let is_glue = z.recs.iter().any(|n| n.rtype == "NS" && n.data == r.owner && n.owner != z.apex);
+                            if is_glue {
+                                via = "referral-glue";
+                            } else if via == "injected" {
+                                via = "ns-address-lookup";
+                            }
+                        }
+                    }
+                    viol(
+                        rep,
+                        &mut raised,
+                        "answer-filter-contacted",
+                        format!("{}|{fam}|{via}", if c.tcp { "tcp" } else { "udp" }),
+                        top,
+                        json!({"deny_answers": w.opts.deny_answers, "allow_answers": w.opts.allow_answers, "never_contacted": "an address the answer filter removes from every upstream response"}),
+                        json!({"contacted": ips, "qname": c.qname, "qtype": c.qtype, "vt_ms": c.vt_ms, "filter_class": class}),
+                    );
+                } else if class != "plain" {
+                    rep.count(&format!("af_contacted_permitted/{class}"));
+                }
             }
             if let Some(m) = marker_of_ip(&c.ip) {
                 if let Some(i) = info.get(&m) {
@@ -418,6 +490,13 @@ fn judge(w: &World, run: &WorldRun, rep: &mut Reporter, widx: u64) {
     for t in &w.tags {
         rep.count(&format!("world_tag/{t}"));
     }
+    if w.tags.iter().any(|t| t == "limit-schedule") {
+        // limit value x loop kind of the generic worlds
+        for t in &loop_tags {
+            rep.count(&format!("limit_schedule/{t}/rec={}", w.opts.recursion_limit));
+            rep.count(&format!("limit_schedule/{t}/ns={}", w.opts.ns_recursion_limit));
+        }
+    }
     if st.undecodable_queries > 0 {
         rep.add("net_undecodable_queries", st.undecodable_queries);
     }
@@ -427,7 +506,7 @@ fn in_net_any(ip: &IpAddr, nets: &[String]) -> bool {
     nets.iter().any(|n| oracle::in_net(ip, n))
 }
 
-fn do_world(w: &World, rep: &mut Reporter, widx: u64) {
+pub(crate) fn do_world(w: &World, rep: &mut Reporter, widx: u64) -> Option<WorldRun> {
     HEARTBEAT.fetch_add(1, Ordering::Relaxed);
     rep.breadcrumb(|| json!({"world": w.to_json(), "world_index": widx}));
     mon::set_quiet(true);
@@ -437,19 +516,31 @@ fn do_world(w: &World, rep: &mut Reporter, widx: u64) {
         Ok(Ok(run)) => {
             rep.count("worlds");
             judge(w, &run, rep, widx);
+            Some(run)
         }
         Ok(Err(e)) => {
             rep.count("world_setup_errors");
             rep.note("last_setup_error", json!(e));
+            None
         }
         Err(p) => {
             rep.eval();
-            rep.violation("panic", &p.site(), json!({"world": w.to_json(), "world_index": widx}), json!("resolve returns Ok or Err"), json!({"panic": p.message, "at": p.location}));
+            rep.violation("panic", &p.site(), json!({"world": w.to_json(), "world_index": widx}), json!("resolve returns Ok or Err"), json!({"panic": p.message, "at": p.location, "recursion_limit": w.opts.recursion_limit, "ns_recursion_limit": w.opts.ns_recursion_limit}));
+            None
         }
     }
 }
 
 fn main() {
+    // deep-but-bounded recursion is legitimate with limits up to 255: give the (single) working
+    // thread a stack that cannot be the reason for an abort
+    let t = std::thread::Builder::new().name("c19".into()).stack_size(1 << 30).spawn(real_main).expect("spawn");
+    let _ = t.join();
+    // real_main exits the process itself; getting here means it panicked (harness bug)
+    std::process::exit(101);
+}
+
+fn real_main() {
     let ctx = Ctx::from_args("C19");
     mon::install_panic_monitor();
     let mut rep = Reporter::new(&ctx);
@@ -459,8 +550,10 @@ fn main() {
         let c = &case["case"];
         if c.get("stub").is_some() {
             stub::replay(c, &mut rep);
+        } else if c.get("depth").is_some() {
+            depth::replay(c, &mut rep);
         } else if let Some(w) = World::from_json(&c["world"]) {
-            do_world(&w, &mut rep, c["world_index"].as_u64().unwrap_or(0));
+            let _ = do_world(&w, &mut rep, c["world_index"].as_u64().unwrap_or(0));
         } else {
             eprintln!("C19: replay file has no world");
             std::process::exit(3);
@@ -490,6 +583,33 @@ fn main() {
     rep.must("net_response/nodata", 1000);
     rep.must("contacts_allowed_by_override", 50);
     rep.must("addresses_returned_under_answer_filter", 100);
+    // answer filter: filter class x section x response kind (thresholds >= 3x below seeds 1..5)
+    for s in gen::SECTIONS {
+        for k in ["answer", "referral", "nodata", "nxdomain", "answerless"] {
+            if !(*s == "answer" && k == "answerless") {
+                rep.must(&format!("af_delivered/ans-deny/{s}/{k}"), 200);
+            }
+        }
+        for c in oracle::AF_CLASSES {
+            rep.must(&format!("af_class_section/{c}/{s}"), 1000);
+        }
+        // the permitted classes do get through in every section (so the absence of the denied ones is the filter's doing)
+        rep.must(&format!("af_returned_permitted/ans-allow/{s}"), 700);
+        rep.must(&format!("af_returned_permitted/srv-deny/{s}"), 700);
+    }
+    rep.must("af_contacted_permitted/ans-allow", 5000);
+    rep.must("net_response/answerless", 3000);
+    for t in ["af-v4", "af-v6", "af-glue", "af-glue-ooz", "af-host", "af-moved", "af-markers-denied"] {
+        rep.must(&format!("world_tag/{t}"), 2000);
+    }
+    // limit schedule: limit value x loop kind in the generic worlds, exact-depth cases and cycle families
+    for f in gen::LOOP_KINDS {
+        for l in gen::LIMIT_VALUES {
+            rep.must(&format!("limit_schedule/{f}/rec={l}"), 40);
+            rep.must(&format!("limit_schedule/{f}/ns={l}"), 40);
+        }
+    }
+    depth::musts(&mut rep);
     rep.must("stub_lookups", 100);
     rep.must("stub_loop_lookups", 30);
     rep.must("stub_ok", 30);
@@ -506,8 +626,24 @@ fn main() {
             let wj = w.to_json();
             rep.sample(|| json!({"world_index": widx, "tags": w.tags, "queries": wj["queries"].clone(), "n_zones": w.zones.len(), "n_servers": w.servers.len()}));
         }
-        do_world(&w, &mut rep, widx);
+        let _ = do_world(&w, &mut rep, widx);
     }
+
+    // answer-filter worlds: filter class x element x section x family x response kind
+    let n = ctx.budget(6_000, 3_000_000);
+    let mut rng = ctx.rng("af-worlds");
+    for k in 0..n {
+        let widx = k * ctx.nshards + ctx.shard;
+        let mut r = rng.fork();
+        let w = gen::generate_af(&mut r, k + ctx.shard * 7);
+        if k < 1 {
+            let wj = w.to_json();
+            rep.sample(|| json!({"af_world_index": widx, "tags": w.tags, "queries": wj["queries"].clone(), "opts": wj["opts"].clone()}));
+        }
+        let _ = do_world(&w, &mut rep, widx);
+    }
+
+    depth::run(&ctx, &mut rep);
 
     stub::run(&ctx, &mut rep);
 
